@@ -591,8 +591,10 @@ impl WebSocketContext {
     {
         if let WebSocketState::Active = self.state {
             self.state = WebSocketState::ClosedByUs;
-            let frame = Frame::close(code);
-            self._write(stream, Some(frame))?;
+            // The close frame goes through `additional_send` so that a full write buffer
+            // delays it instead of dropping it, and so that it replaces a pending pong
+            // (nothing may follow our close frame).
+            self.additional_send = Some(Frame::close(code));
         }
         self.flush(stream)
     }
